@@ -62,10 +62,12 @@ def main():
     with open(os.path.join(ROOT, sub, "RESULTS.md"), "w") as f:
         if sub == "refactors":
             f.write("# Harmless refactors (the property still holds) and the checks that raise an alarm on them\n\n"
-                    "Each change compiles and passes the 52 tests; `caught by` should be empty (shown as **missed**, which here means: no alarm).\n\n")
-        f.write("# Seeded changes and the checks that report them\n\n")
-        f.write("Each change compiles, passes the 52 existing tests, and breaks the named property (demo.rs fails with it, passes without).\n")
-        f.write("`caught by` = quick checks that exit 1 with a VIOLATION line when the patch is applied to /repo.\n\n")
+                    "Each change compiles and passes the 52 tests; all 18 quick checks are run; `caught by` should be empty "
+                    "(shown as **missed**, which here means: no alarm).\n\n")
+        else:
+            f.write("# Seeded changes and the checks that report them\n\n")
+            f.write("Each change compiles, passes the 52 existing tests, and breaks the named property (demo.rs fails with it, passes without).\n")
+            f.write("`caught by` = quick checks that exit 1 with a VIOLATION line when the patch is applied to /repo.\n\n")
         f.write("| seeded change | targets | caught by | first report |\n|---|---|---|---|\n")
         for sid in sorted(results):
             r = results[sid]
